@@ -1,9 +1,15 @@
 //vf:dir io
 package io
 
-import "github.com/whatap/golib/zzvf"
+import (
+	"math"
 
-// reference big-endian encoder (independent of the code under test)
+	"github.com/whatap/golib/zzvf"
+)
+
+// ---- independent reference encoder (written from the format description) ----
+
+// big-endian two's complement of the low n bytes of v
 func zzRefBE(v uint64, n int) []byte {
 	b := make([]byte, n)
 	for i := 0; i < n; i++ {
@@ -12,29 +18,177 @@ func zzRefBE(v uint64, n int) []byte {
 	return b
 }
 
-func zzSameBytes(a, b []byte) bool {
-	if len(a) != len(b) {
-		return false
+// decimal: shortest of the 0/1/2/3/4/5/8-byte forms that holds the value
+func zzRefDecimal(v int64) []byte {
+	switch {
+	case v == 0:
+		return []byte{0}
+	case v >= -128 && v <= 127:
+		return append([]byte{1}, zzRefBE(uint64(v), 1)...)
+	case v >= -32768 && v <= 32767:
+		return append([]byte{2}, zzRefBE(uint64(v), 2)...)
+	case v >= -8388608 && v <= 8388607:
+		return append([]byte{3}, zzRefBE(uint64(v), 3)...)
+	case v >= -2147483648 && v <= 2147483647:
+		return append([]byte{4}, zzRefBE(uint64(v), 4)...)
+	case v >= -549755813888 && v <= 549755813887:
+		return append([]byte{5}, zzRefBE(uint64(v), 5)...)
 	}
-	ok := true
-	for i := range a {
-		ok = zzvf.And(ok, a[i] == b[i])
+	return append([]byte{8}, zzRefBE(uint64(v), 8)...)
+}
+
+func zzRefBlob(p []byte) []byte {
+	n := len(p)
+	switch {
+	case n == 0:
+		return []byte{0}
+	case n <= 253:
+		return append([]byte{byte(n)}, p...)
+	case n <= 65535:
+		return append(append([]byte{255}, zzRefBE(uint64(n), 2)...), p...)
 	}
-	return ok
+	return append(append([]byte{254}, zzRefBE(uint64(n), 4)...), p...)
+}
+
+// zzCheck: bytes equal the reference, Size() equals bytes produced, reader consumed all.
+func zzCheck(out *DataOutputX, in *DataInputX, ref []byte, what string) {
+	b := out.ToByteArray()
+	zzvf.Assert(zzvf.Same(b, ref), what+"/bytes-equal-reference")
+	zzvf.Assert(out.Size() == len(b), what+"/size")
+	zzvf.Assert(in.Available() == 0, what+"/consumed-exactly")
+}
+
+func ZZ_C01_Bool() {
+	v := zzvf.Bool()
+	out := NewDataOutputX()
+	out.WriteBool(v)
+	in := NewDataInputX(out.ToByteArray())
+	r := in.ReadBool()
+	zzvf.Observe("r", r)
+	zzvf.Assert(r == v, "bool/roundtrip")
+	ref := []byte{0}
+	if v {
+		ref[0] = 1
+	}
+	zzCheck(out, in, ref, "bool")
+	zzvf.Reach("bool")
+}
+
+func ZZ_C01_Byte() {
+	v := zzvf.Byte()
+	out := NewDataOutputX()
+	out.WriteByte(v)
+	in := NewDataInputX(out.ToByteArray())
+	r := in.ReadByte()
+	zzvf.Observe("r", r)
+	zzvf.Assert(r == v, "byte/roundtrip")
+	zzCheck(out, in, []byte{v}, "byte")
+	zzvf.Reach("byte")
+}
+
+func ZZ_C01_Short() {
+	v := zzvf.Int16()
+	out := NewDataOutputX()
+	out.WriteShort(v)
+	in := NewDataInputX(out.ToByteArray())
+	r := in.ReadShort()
+	zzvf.Observe("r", r)
+	zzvf.Assert(r == v, "short/roundtrip")
+	zzCheck(out, in, zzRefBE(uint64(v), 2), "short")
+	in2 := NewDataInputX(out.ToByteArray())
+	zzvf.Assert(in2.ReadUnsignedShort() == uint16(v), "short/read-unsigned")
+	zzvf.Reach("short")
+}
+
+func ZZ_C01_UShort() {
+	v := zzvf.Uint16()
+	out := NewDataOutputX()
+	out.WriteUShort(v)
+	in := NewDataInputX(out.ToByteArray())
+	r := in.ReadUShort()
+	zzvf.Observe("r", r)
+	zzvf.Assert(r == v, "ushort/roundtrip")
+	zzCheck(out, in, zzRefBE(uint64(v), 2), "ushort")
+	zzvf.Reach("ushort")
+}
+
+func ZZ_C01_Int3() {
+	v := zzvf.Int32()
+	zzvf.Assume(v >= INT3_MIN_VALUE)
+	zzvf.Assume(v <= INT3_MAX_VALUE)
+	out := NewDataOutputX()
+	out.WriteInt3(v)
+	in := NewDataInputX(out.ToByteArray())
+	r := in.ReadInt3()
+	zzvf.Observe("r", r)
+	zzvf.Assert(r == v, "int3/roundtrip")
+	zzCheck(out, in, zzRefBE(uint64(v), 3), "int3")
+	zzvf.Reach("int3")
 }
 
 func ZZ_C01_Int() {
 	v := zzvf.Int32()
 	out := NewDataOutputX()
 	out.WriteInt(v)
-	b := out.ToByteArray()
-	zzvf.Assert(zzSameBytes(b, zzRefBE(uint64(uint32(v)), 4)), "int/bytes")
-	zzvf.Assert(out.Size() == 4, "int/size")
-	in := NewDataInputX(b)
+	in := NewDataInputX(out.ToByteArray())
 	r := in.ReadInt()
 	zzvf.Observe("r", r)
 	zzvf.Assert(r == v, "int/roundtrip")
-	zzvf.Reach("int/end")
+	zzCheck(out, in, zzRefBE(uint64(v), 4), "int")
+	in2 := NewDataInputX(out.ToByteArray())
+	zzvf.Assert(in2.ReadUnsignedInt() == uint32(v), "int/read-unsigned")
+	zzvf.Reach("int")
+}
+
+func ZZ_C01_Long5() {
+	v := zzvf.Int64()
+	zzvf.Assume(v >= LONG5_MIN_VALUE)
+	zzvf.Assume(v <= LONG5_MAX_VALUE)
+	out := NewDataOutputX()
+	out.WriteLong5(v)
+	in := NewDataInputX(out.ToByteArray())
+	r := in.ReadLong5()
+	zzvf.Observe("r", r)
+	zzvf.Assert(r == v, "long5/roundtrip")
+	zzCheck(out, in, zzRefBE(uint64(v), 5), "long5")
+	zzvf.Reach("long5")
+}
+
+func ZZ_C01_Long() {
+	v := zzvf.Int64()
+	out := NewDataOutputX()
+	out.WriteLong(v)
+	in := NewDataInputX(out.ToByteArray())
+	r := in.ReadLong()
+	zzvf.Observe("r", r)
+	zzvf.Assert(r == v, "long/roundtrip")
+	zzCheck(out, in, zzRefBE(uint64(v), 8), "long")
+	zzvf.Reach("long")
+}
+
+func ZZ_C01_Float() {
+	v := zzvf.Float32()
+	out := NewDataOutputX()
+	out.WriteFloat(v)
+	in := NewDataInputX(out.ToByteArray())
+	r := in.ReadFloat()
+	zzvf.Observe("r", r)
+	// bitwise: every NaN payload must survive
+	zzvf.Assert(math.Float32bits(r) == math.Float32bits(v), "float/roundtrip-bitwise")
+	zzCheck(out, in, zzRefBE(uint64(math.Float32bits(v)), 4), "float")
+	zzvf.Reach("float")
+}
+
+func ZZ_C01_Double() {
+	v := zzvf.Float64()
+	out := NewDataOutputX()
+	out.WriteDouble(v)
+	in := NewDataInputX(out.ToByteArray())
+	r := in.ReadDouble()
+	zzvf.Observe("r", r)
+	zzvf.Assert(math.Float64bits(r) == math.Float64bits(v), "double/roundtrip-bitwise")
+	zzCheck(out, in, zzRefBE(math.Float64bits(v), 8), "double")
+	zzvf.Reach("double")
 }
 
 func ZZ_C01_Decimal() {
@@ -47,6 +201,33 @@ func ZZ_C01_Decimal() {
 	zzvf.Observe("len", len(b))
 	zzvf.Observe("r", r)
 	zzvf.Assert(r == v, "decimal/roundtrip")
-	zzvf.Assert(out.Size() == len(b), "decimal/size")
-	zzvf.Reach("decimal/end")
+	// canonicity + layout: equals the reference (shortest form) byte for byte
+	zzCheck(out, in, zzRefDecimal(v), "decimal")
+	// ReadDecimalLen with the length byte read separately
+	in2 := NewDataInputX(b)
+	n := int(in2.ReadByte())
+	zzvf.Assert(in2.ReadDecimalLen(n) == v, "decimal/read-len")
+	zzvf.Reach("decimal")
+}
+
+// little-endian read helpers decode the byte-reversed layout of the same widths
+func ZZ_C01_Little() {
+	b := zzvf.Bytes(8)
+	rev := make([]byte, 8)
+	for i := range b {
+		rev[7-i] = b[i]
+	}
+	// 16 bit: big-endian view of b[0:2] equals little-endian view of reversed pair
+	zzvf.Assert(ToShortLittle([]byte{b[1], b[0]}, 0) == ToShort(b, 0), "little/short")
+	zzvf.Assert(ToUshortLittle([]byte{b[1], b[0]}, 0) == ToUShort(b, 0), "little/ushort")
+	zzvf.Assert(ToIntLittle([]byte{b[3], b[2], b[1], b[0]}, 0) == ToInt(b, 0), "little/int")
+	zzvf.Assert(ToUintLittle([]byte{b[3], b[2], b[1], b[0]}, 0) == ToUint(b, 0), "little/uint")
+	zzvf.Assert(ToLongLittle(rev, 0) == ToLong(b, 0), "little/long")
+	zzvf.Assert(ToUlongLittle(rev, 0) == uint64(ToLong(b, 0)), "little/ulong")
+	// through the stream API
+	zzvf.Assert(NewDataInputX([]byte{b[1], b[0]}).ReadShortLittle() == NewDataInputX(b).ReadShort(), "little/read-short")
+	zzvf.Assert(NewDataInputX([]byte{b[1], b[0]}).ReadUnsignedShortLittle() == NewDataInputX(b).ReadUnsignedShort(), "little/read-ushort")
+	zzvf.Assert(NewDataInputX([]byte{b[3], b[2], b[1], b[0]}).ReadIntLittle() == NewDataInputX(b).ReadInt(), "little/read-int")
+	zzvf.Assert(NewDataInputX([]byte{b[3], b[2], b[1], b[0]}).ReadUintLittle() == NewDataInputX(b).ReadUnsignedInt(), "little/read-uint")
+	zzvf.Reach("little")
 }
